@@ -13,16 +13,17 @@ tvars == <<vars, l>>
 Ev == TLog[l]
 IsEvent(name) == l <= Len(TLog) /\ Ev.a = name /\ l' = l + 1
 ToSet(s) == {s[i] : i \in 1..Len(s)}
-EvCase == [n |-> Ev.in.n, bm |-> Ev.in.bm, fb |-> Ev.in.fb, sg |-> ToSet(Ev.in.sg), fg |-> ToSet(Ev.in.fg)]
+EvCase == [n |-> Ev.in.n, bm |-> Ev.in.bm, hk |-> Ev.in.hk, sg |-> ToSet(Ev.in.sg), fg |-> ToSet(Ev.in.fg)]
 
 TraceInit ==
     /\ l = 1 /\ pc = "start" /\ res = "pending" /\ hist = <<>>
-    /\ inp = [n |-> 1, bm |-> <<1>>, fb |-> FALSE, sg |-> {0}, fg |-> {}]
+    /\ inp = [n |-> 1, bm |-> <<1>>, hk |-> [meta |-> FALSE, soe |-> FALSE, prev |-> "present", dr |-> 1], sg |-> {0}, fg |-> {}]
 TNew == IsEvent("New") /\ UNCHANGED vars
 Observe == inp' = EvCase /\ pc' = "done" /\ res' = Ev.out.res /\ hist' = <<>>
 TVerify ==
     /\ IsEvent("Verify") /\ Observe
     /\ Ev.out.res \in {Verdict({}, EvCase), Verdict({"paddingCounted"}, EvCase)}
+    /\ Ev.out.fallback = FallbackApplies(Ev.in.hk)     \* the real validator's own answer for that header
 TVerifyObs == IsEvent("Verify") /\ Observe
 TraceNext == TNew \/ TVerify
 TraceNextObs == TNew \/ TVerifyObs
